@@ -4,6 +4,7 @@ import (
 	"encoding/binary"
 	"fmt"
 	"math"
+	"os"
 	"strings"
 	"testing"
 	"time"
@@ -315,5 +316,58 @@ func TestC15(t *testing.T) {
 		Gen:         genC15,
 		Run:         runC15,
 		Fixed:       c15Fixed,
+	})
+}
+
+var fuzzTargets = []string{"header", "series", "points", "point", "value", "timestamp", "duration", "archiveinfo", "file", "http-view", "http-view-raw", "http-sum"}
+
+// FuzzC15 is the coverage-guided variant (thorough tier): byte 0 selects the target, the rest is
+// the hostile input; executed in-process with the same panic / allocation oracle.
+func FuzzC15(f *testing.F) {
+	l := Layout{Archives: []Arch{{1, 60}, {60, 30}}, Method: 1, XFF: 0.5}
+	hdr := EncodeLayoutHeader(l)
+	file := make([]byte, l.FileSize())
+	copy(file, hdr)
+	seeds := map[string][][]byte{
+		"header":        {hdr, hdr[:16], hdr[:20]},
+		"series":        {encSeries(1500000000, 1500000003, 1, []uint64{1, 2, 3}), encSeries(0, 1<<32-1, 1, nil), encSeries(0, 100, 1<<31, nil)},
+		"points":        {encPoints([]uint32{1, 2}, []uint64{3, 4}), {0xff, 0xff, 0xff, 0xff, 0xff, 0xff, 0xff, 0xff}, {0x15, 0x55, 0x55, 0x55, 0x55, 0x55, 0x55, 0x56}},
+		"file":          {file, file[:28], file[:100], hdr},
+		"http-view":     {append(append([]byte(nil), hdr...), append(encSeries(1500000000, 1500000002, 1, []uint64{0, 0}), encSeries(1499999940, 1500000060, 60, []uint64{0, 0})...)...)},
+		"http-view-raw": {append(append([]byte(nil), hdr...), append(encPoints([]uint32{1}, []uint64{2}), encPoints(nil, nil)...)...)},
+		"http-sum":      {append(append([]byte(nil), hdr...), encSeries(1500000000, 1500000002, 1, []uint64{0, 0})...)},
+	}
+	for i, tname := range fuzzTargets {
+		for _, s := range seeds[tname] {
+			f.Add(append([]byte{byte(i)}, s...))
+			for _, e := range []uint32{0x15555556, 1<<31 - 1, 1 << 31, 1<<32 - 1} {
+				for off := 0; off+4 <= len(s) && off < 40; off += 4 {
+					m := append([]byte{byte(i)}, s...)
+					binary.BigEndian.PutUint32(m[1+off:], e)
+					f.Add(m)
+				}
+			}
+		}
+		f.Add([]byte{byte(i)})
+	}
+	dir, _ := os.MkdirTemp(scratchBase(), "verif-fuzz15-")
+	f.Cleanup(func() { os.RemoveAll(dir) })
+	f.Fuzz(func(t *testing.T, in []byte) {
+		if len(in) == 0 || len(in) > 1<<16 {
+			return
+		}
+		c := C15Case{Target: fuzzTargets[int(in[0])%len(fuzzTargets)], Data: in[1:], Now: 1500000000, Origin: "native-fuzz"}
+		resp := execHostile(hostileReq{Target: c.Target, Data: c.Data, Now: c.Now}, dir)
+		var fs []Finding
+		if resp.Panic != "" {
+			fs = append(fs, Finding{Property: "C15", Key: "panic", Detail: fmt.Sprintf("target=%s %d bytes %s: panic in %s: %s", c.Target, len(c.Data), hexHead(c.Data, 48), resp.Where, resp.Panic)})
+		} else if resp.Alloc > uint64(8*allocSlack+64*len(c.Data)) {
+			// in-process the background allocations of the fuzz worker are included: wider slack
+			fs = append(fs, Finding{Property: "C15", Key: "allocation", Detail: fmt.Sprintf("target=%s %d bytes %s: %d bytes allocated; last call %s", c.Target, len(c.Data), hexHead(c.Data, 48), resp.Alloc, resp.Where)})
+		}
+		if len(fs) > 0 {
+			saveReplay("C15", c, fs)
+			t.Fatalf("%s", fs[0])
+		}
 	})
 }
